@@ -649,11 +649,11 @@ impl Monitor for C03 {
         let nc = core_len();
         v.extend(split_chunks("core", 0, nc, nc, 100));
         let (nr, ns) = match tier {
-            Tier::Quick => (20_000, 3_000),
-            Tier::Thorough => (200_000, 20_000),
+            Tier::Quick => (60_000, 8_000),
+            Tier::Thorough => (600_000, 60_000),
         };
-        v.extend(split_chunks("rand", seed_offset(seed, "C03r", 200_000), nr, 200_000, 400));
-        v.extend(split_chunks("src", seed_offset(seed, "C03s", 20_000), ns, 20_000, 100));
+        v.extend(split_chunks("rand", seed_offset(seed, "C03r", 600_000), nr, 600_000, 400));
+        v.extend(split_chunks("src", seed_offset(seed, "C03s", 60_000), ns, 60_000, 100));
         v
     }
     fn run_case(&self, kind: &str, idx: u64) -> CaseResult {
